@@ -11,9 +11,11 @@ ids = [p['id'] for p in props]
 base = json.load(open(os.path.join(frag_dir, '_base.json')))
 checks = []
 na = {e['property_id']: e for e in base.get('not_applicable', [])}
+enabled_file = os.path.join(frag_dir, '_enabled.txt')
+enabled = set(open(enabled_file).read().split()) if os.path.exists(enabled_file) else None
 for pid in ids:
     fp = os.path.join(frag_dir, pid + '.json')
-    if os.path.exists(fp):
+    if os.path.exists(fp) and (enabled is None or pid in enabled):
         c = json.load(open(fp))
         c.setdefault('property_id', pid)
         c.setdefault('quick_cmd', './check %s --tier quick' % pid)
